@@ -398,7 +398,7 @@ func runC06(c *runCtx) {
 			t1, perr := gosqlx.Parse(y)
 			if perr != nil {
 				// which construct? use the node type that the error position falls in is unknown: key by the error's expectation
-				if cause := rejectCause(x, perr); cause != "" {
+				if cause := rejectCauseOut(x, y, perr); cause != "" {
 					res.fail("reparse-rejected:"+family(s.name)+":"+cause, "the serialised text is not accepted", wit, map[string]any{"output": clip(y, 500), "error": strings.SplitN(perr.Error(), "\n", 2)[0]})
 					continue
 				}
@@ -471,17 +471,64 @@ var quotedIdent = regexp.MustCompile("[\"`]([A-Za-z_][A-Za-z0-9_]*)[\"`]")
 // rejectCause names why a serialised text is rejected when that is recognisable: a quoted identifier that is a
 // reserved word was written without its quotes, or a string literal with a backslash was written unescaped
 func rejectCause(input string, perr error) string {
+	return rejectCauseOut(input, "", perr)
+}
+
+var reservedWordSet map[string]bool
+
+// rejectCauseOut: as rejectCause, also looking at the text that was rejected: a quoted identifier of the input that is
+// a word of the grammar and stands bare in the output is the cause, named with the position it stands in
+func rejectCauseOut(input, output string, perr error) string {
 	msg := perr.Error()
 	if strings.Contains(msg, "invalid escape sequence") {
 		return "string-backslash"
 	}
+	if reservedWordSet == nil {
+		reservedWordSet = map[string]bool{}
+		for _, w := range parserWords() {
+			reservedWordSet[w] = true
+		}
+	}
 	m := regexp.MustCompile(`unexpected token: [A-Z_]+ \('([^']*)'\)`).FindStringSubmatch(msg)
-	if m != nil {
-		for _, q := range quotedIdent.FindAllStringSubmatch(input, -1) {
-			if strings.EqualFold(q[1], m[1]) {
-				return "reserved-word-identifier"
+	for _, loc := range quotedIdent.FindAllStringSubmatchIndex(input, -1) {
+		word := input[loc[2]:loc[3]]
+		named := m != nil && strings.EqualFold(word, m[1])
+		bare := false
+		if output != "" && reservedWordSet[strings.ToUpper(word)] && !strings.Contains(output, input[loc[0]:loc[1]]) {
+			bare = regexp.MustCompile(`(?i)(^|[^A-Za-z0-9_"`+"`"+`])`+regexp.QuoteMeta(word)+`($|[^A-Za-z0-9_"`+"`"+`])`).MatchString(output)
+		}
+		if !named && !bare {
+			continue
+		}
+		// where the quoted reserved word stands
+		before := strings.Fields(strings.ToUpper(input[:loc[0]]))
+		pos := "column"
+		if n := len(before); n > 0 {
+			last := before[n-1]
+			clause := ""
+			for i := n - 1; i >= 0 && clause == ""; i-- {
+				switch before[i] {
+				case "SELECT", "RETURNING", "SET", "WHERE", "ON", "BY", "HAVING", "VALUES":
+					clause = "list"
+				case "FROM", "JOIN", "INTO", "UPDATE", "TABLE", "USING":
+					clause = "table"
+				}
+			}
+			switch {
+			case last == "AS" && clause == "table":
+				pos = "table-alias"
+			case last == "AS":
+				pos = "column-alias"
+			case last == "FROM" || last == "JOIN" || last == "INTO" || last == "UPDATE" || last == "TABLE" || last == "USING":
+				pos = "table"
+			case strings.HasSuffix(last, "."):
+				pos = "qualified-column"
 			}
 		}
+		if strings.HasSuffix(strings.TrimSpace(input[:loc[0]]), ".") {
+			pos = "qualified-column"
+		}
+		return "reserved-word-identifier:" + pos
 	}
 	return ""
 }
